@@ -472,8 +472,9 @@ static inline void maybe_flush_bitbuf(uint64_t& bitbuf, uint8_t& bufbits, uint32
   }
 }
 
-static inline void maybe_fill_bitbuf(uint64_t& bitbuf, uint8_t& bufbits, const uint32_t* wordarr, uint32_t& wordindex, uint8_t minbits) {
+static inline void maybe_fill_bitbuf(uint64_t& bitbuf, uint8_t& bufbits, const uint32_t* wordarr, uint32_t& wordindex, uint8_t minbits, uint32_t num_words) {
   if (bufbits < minbits) {
+    if (wordindex >= num_words) throw std::out_of_range("Possible corruption: compressed data is shorter than the counts in the preamble require");
     bitbuf |= static_cast<uint64_t>(wordarr[wordindex++]) << bufbits;
     bufbits += 32;
   }
@@ -530,7 +531,7 @@ void cpc_compressor<A>::low_level_uncompress_bytes(
   if (compressed_words == nullptr) throw std::logic_error("compressed_words == NULL");
 
   for (uint32_t byte_index = 0; byte_index < num_bytes_to_decode; byte_index++) {
-    maybe_fill_bitbuf(bitbuf, bufbits, compressed_words, word_index, 12); // ensure 12 bits in bit buffer
+    maybe_fill_bitbuf(bitbuf, bufbits, compressed_words, word_index, 12, num_compressed_words); // ensure 12 bits in bit buffer
 
     const size_t peek12 = bitbuf & 0xfff; // These 12 bits will include an entire Huffman codeword.
     const uint16_t lookup = decoding_table[peek12];
@@ -549,7 +550,8 @@ static inline uint64_t read_unary(
     const uint32_t* compressed_words,
     uint32_t& next_word_index,
     uint64_t& bitbuf,
-    uint8_t& bufbits
+    uint8_t& bufbits,
+    uint32_t num_compressed_words
 );
 
 static inline void write_unary(
@@ -646,7 +648,7 @@ void cpc_compressor<A>::low_level_uncompress_pairs(
   // y_delta_lo (basebits)
 
   for (uint32_t pair_index = 0; pair_index < num_pairs_to_decode; pair_index++) {
-    maybe_fill_bitbuf(bitbuf, bufbits, compressed_words, word_index, 12); // ensure 12 bits in bit buffer
+    maybe_fill_bitbuf(bitbuf, bufbits, compressed_words, word_index, 12, num_compressed_words); // ensure 12 bits in bit buffer
     const size_t peek12 = bitbuf & 0xfff;
     const uint16_t lookup = length_limited_unary_decoding_table65[peek12];
     const uint8_t code_word_length = lookup >> 8;
@@ -654,9 +656,9 @@ void cpc_compressor<A>::low_level_uncompress_pairs(
     bitbuf >>= code_word_length;
     bufbits -= code_word_length;
 
-    const uint64_t golomb_hi = read_unary(compressed_words, word_index, bitbuf, bufbits);
+    const uint64_t golomb_hi = read_unary(compressed_words, word_index, bitbuf, bufbits, num_compressed_words);
 
-    maybe_fill_bitbuf(bitbuf, bufbits, compressed_words, word_index, num_base_bits); // ensure num_base_bits in bit buffer
+    maybe_fill_bitbuf(bitbuf, bufbits, compressed_words, word_index, num_base_bits, num_compressed_words); // ensure num_base_bits in bit buffer
     const uint64_t golomb_lo = bitbuf & golomb_lo_mask;
     bitbuf >>= num_base_bits;
     bufbits -= num_base_bits;
@@ -678,12 +680,13 @@ uint64_t read_unary(
     const uint32_t* compressed_words,
     uint32_t& next_word_index,
     uint64_t& bitbuf,
-    uint8_t& bufbits
+    uint8_t& bufbits,
+    uint32_t num_compressed_words
 ) {
   if (compressed_words == nullptr) throw std::logic_error("compressed_words == NULL");
   size_t subtotal = 0;
   while (true) {
-    maybe_fill_bitbuf(bitbuf, bufbits, compressed_words, next_word_index, 8); // ensure 8 bits in bit buffer
+    maybe_fill_bitbuf(bitbuf, bufbits, compressed_words, next_word_index, 8, num_compressed_words); // ensure 8 bits in bit buffer
 
     const uint8_t peek8 = bitbuf & 0xff; // These 8 bits include either all or part of the Unary codeword
     const uint8_t trailing_zeros = byte_trailing_zeros_table[peek8];
